@@ -58,9 +58,9 @@ CLAIMED = {
    note="Trusted: TLC, OracleC13.tla. Pairs bounded to <= 4 nodes per graph, weights in {0,1}, predicates = equality. One defect found and fixed (empty pattern looped forever).",
    design="4/C13", technique="TLA+ oracle spec evaluated by TLC on recorded (input, output) pairs"),
  "C14": dict(
-   text="The Acyclic actions of MGTrace.tla (on top of GraphAbs/StableAbs): an insertion is rejected exactly for a self-loop or when the target already reaches the source (reachability closure), a rejected call changes nothing (graph and order), try_from_graph/TryFrom accept exactly the acyclic graphs, remove_node of an absent/already removed node changes nothing, and after every call the logged order (nodes_iter) must be a permutation of exactly the live nodes with every edge forward, with get_position strictly increasing along it, at_position its inverse, range() its sub-sequences and is_valid_edge = 'not a self-loop and no path back'; invariant: no directed cycle while wrapped. Real Acyclic<DiGraph>/Acyclic<StableDiGraph> histories (debug; release in thorough) including removal of non-last DiGraph nodes and repeated removals are validated by TLC.",
+   text="AcyclicPK.tla models the order maintenance as coded (OrderMap positions with gaps, the two range-trimmed DFS cones sharing one visited set, the reorder, DiGraph renaming on removal, StableDiGraph id reuse) and is model-checked for valid order, injective positions, no reachable assertion, refusal iff self-loop or cycle, refusal changes nothing, for both inner types (N=4 exhaustively; N=5 in the thorough tier), with two negative-control mutants; one history per distinct model state is replayed on the real wrapper and every call forked from it (clone). The Acyclic actions of MGTrace.tla (on top of GraphAbs/StableAbs): an insertion is rejected exactly for a self-loop or when the target already reaches the source (reachability closure), a rejected call changes nothing (graph and order), try_from_graph/TryFrom accept exactly the acyclic graphs, remove_node of an absent/already removed node changes nothing, and after every call the logged order (nodes_iter) must be a permutation of exactly the live nodes with every edge forward, with get_position strictly increasing along it, at_position its inverse, range() its sub-sequences and is_valid_edge = 'not a self-loop and no path back'; invariant: no directed cycle while wrapped. Real Acyclic<DiGraph>/Acyclic<StableDiGraph> histories (debug; release in thorough) including removal of non-last DiGraph nodes and repeated removals are validated by TLC.",
    note="Trusted: TLC + Json module, harness recorder; positions are opaque so their consistency is computed by the harness via the public API. Which valid order is kept is unspecified. Two defects found and fixed (remove_node of absent node, DiGraph renumbering not followed).",
-   design="4/C14", technique="TLA+ spec + trace validation of real executions"),
+   design="4/C14", technique="TLA+ spec + TLC model checking of the algorithm + TLC-generated state cover replayed on the code + trace validation of real executions"),
  "C15": dict(
    text="greedy_matching and maximum_matching (all accessors) on every encoding, ford_fulkerson (u32 and f64 capacities, parallel/antiparallel edges) on Graph and StableGraph with vacancies; judged by TLC against OracleC15.tla: valid matching with consistent accessors, size = maximum over ALL matchings (subset enumeration), flow feasibility, conservation, value = net out of s = minimum over all s-t cuts.",
    note="Trusted: TLC, OracleC15.tla. Inputs bounded to <= 10 edges. Recorded finding: maximum_matching on directed graph types is not maximum (documented as 'treated as undirected'; a repair changes trait bounds). ford_fulkerson sizing defect fixed.",
